@@ -43,6 +43,16 @@ def _query(c):
     return ev
 
 
+def _tspec(chy, chx, salt):
+    """the tiling as the API takes it: chunk tuples, or - when the chunks are those of a regular tiling (equal sizes, a smaller or equal remainder
+    last) - for every other case the plain tile shape (regular Tiles instead of VariableSizedTiles)"""
+    def regular(ch):
+        return all(v == ch[0] for v in ch[:-1]) and ch[-1] <= ch[0]
+    if regular(chy) and regular(chx) and (salt // 60) % 2 == 0:
+        return (chy[0], chx[0])
+    return (tuple(chy), tuple(chx))
+
+
 def _pair(c):
     from affine import Affine
 
@@ -58,8 +68,8 @@ def _pair(c):
             dst = GeoBox(dst.shape, Affine(a.a, a.b, a.c + 1024, a.d, a.e, a.f + 2048), CRS_B)
         else:
             dst = GeoBox(dst.shape, dst.affine, CRS_A)
-        gs = GeoboxTiles(src, (tuple(c["sy"]), tuple(c["sx"])))
-        gd = GeoboxTiles(dst, (tuple(c["dy"]), tuple(c["dx"])))
+        gs = GeoboxTiles(src, _tspec(c["sy"], c["sx"], c["A"][2]))
+        gd = GeoboxTiles(dst, _tspec(c["dy"], c["dx"], c["A"][5]))
         deps = gd.grid_intersect(gs)
         ev["deps"] = [{"d": [idx(k[0]), idx(k[1])], "s": [[idx(a), idx(b)] for a, b in v]} for k, v in sorted(deps.items())]
     except Exception as ex:  # noqa: BLE001
@@ -84,10 +94,18 @@ def _rpair(c):
     ev = {"op": "rpair", "c": c, "sy": sy, "sx": sx, "dy": dy, "dx": dx, "outcome": "ok", "deps": [], "need": [], "apart": False}
     try:
         s, d = c["pair"].split(">")
-        box, n = RSRC[s]
+        glob = s.endswith("G")
+        if glob:
+            s = s[:-1]
+            box = (-180.0, -90.0, 180.0, 90.0) if s == "4326" else (-20037508.342789244, -20037508.342789244, 20037508.342789244, 20037508.342789244)
+        else:
+            box, n = RSRC[s]
         src = GeoBox.from_bbox(box, f"epsg:{s}", shape=(sum(sy), sum(sx)), tight=True)
         # footprint of the source in the destination CRS from fresh pyproj (dense boundary)
         tr = pyproj.Transformer.from_crs(int(s), int(d), always_xy=True)
+        if glob:
+            # the destination is the regional raster of its CRS; nothing is derived from the (degenerate) projected source footprint
+            dst = GeoBox.from_bbox(BoundingBox(*RSRC[d][0], f"epsg:{d}"), shape=(sum(dy), sum(dx)), tight=True)
         t = np.linspace(0, 1, 201)
         bx = np.concatenate([box[0] + (box[2] - box[0]) * t, np.full(201, box[2]), box[2] - (box[2] - box[0]) * t, np.full(201, box[0])])
         by = np.concatenate([np.full(201, box[1]), box[1] + (box[3] - box[1]) * t, np.full(201, box[3]), box[3] - (box[3] - box[1]) * t])
@@ -96,10 +114,13 @@ def _rpair(c):
         w, h = r - l, tp - b
         k = 1.0 if c["zoom"] == "same" else 1.6
         x0, y0 = l + c["dx"] / 10 * w, b + c["dy"] / 10 * h
-        if d == "4326" and not (-180 <= x0 and x0 + 0.8 * w * k <= 180 and -89 <= y0 and y0 + 0.8 * h * k <= 89):
+        if glob:
+            pass
+        elif d == "4326" and not (-180 <= x0 and x0 + 0.8 * w * k <= 180 and -89 <= y0 and y0 + 0.8 * h * k <= 89):
             ev["outcome"] = "skip_destination_outside_the_valid_area_of_its_crs"
             return ev
-        dst = GeoBox.from_bbox(BoundingBox(x0, y0, x0 + 0.8 * w * k, y0 + 0.8 * h * k, f"epsg:{d}"), shape=(sum(dy), sum(dx)), tight=True)
+        if not glob:
+            dst = GeoBox.from_bbox(BoundingBox(x0, y0, x0 + 0.8 * w * k, y0 + 0.8 * h * k, f"epsg:{d}"), shape=(sum(dy), sum(dx)), tight=True)
         gs, gd = GeoboxTiles(src, (tuple(sy), tuple(sx))), GeoboxTiles(dst, (tuple(dy), tuple(dx)))
         deps = gd.grid_intersect(gs)
         ev["deps"] = [{"d": [idx(kk[0]), idx(kk[1])], "s": [[idx(a), idx(bb)] for a, bb in v]} for kk, v in sorted(deps.items())]
@@ -147,8 +168,12 @@ def run(ctx):
     total = len(cases)
     qs = [c for c in cases if c["op"] == "query"]
     ps = [c for c in cases if c["op"] == "pair"]
-    rs = [c for c in cases if c["op"] == "rpair"]
-    cases = ctx.subsample(qs, 6000 if q else 10 ** 6) + ctx.subsample(ps, 2500 if q else 10 ** 6) + ctx.subsample(rs, 400 if q else 10 ** 6)
+    ident = lambda c: c["A"] == [960, 0, 0, 0, 960, 0] and c["crs"] == "same" and (c["hs"], c["ws"]) == (c["hd"], c["wd"])  # noqa: E731
+    same = [c for c in ps if ident(c)]                                   # one grid tiled twice: all kept
+    ps = [c for c in ps if not ident(c)]
+    rs = [c for c in cases if c["op"] == "rpair" and c["zoom"] != "global"]
+    same += [c for c in cases if c["op"] == "rpair" and c["zoom"] == "global"]        # sources wrapping the globe: all kept
+    cases = ctx.subsample(qs, 6000 if q else 10 ** 6) + ctx.subsample(ps, 2500 if q else 10 ** 6) + same + ctx.subsample(rs, 400 if q else 10 ** 6)
     events = ctx.pmap(execute, cases)
     verdicts = _validate(ctx, events)
     for ev, v in zip(events, verdicts):
